@@ -113,7 +113,7 @@ func checkSAKeys(sa *security.IKESAKey, s bridge.SuiteSel, want ref.IKEKeys) err
 }
 
 var c07Derive = probe.Define("C07", "derive", func(t *rapid.T) c07In {
-	return c07In{
+	in := c07In{
 		Suite:  genSuite(t),
 		All:    rapid.IntRange(0, 19).Draw(t, "all") == 19,
 		Nonce:  gen.BytesLen(t, "nonces", 1, 512, 1, 32, 64, 65, 512),
@@ -121,6 +121,33 @@ var c07Derive = probe.Define("C07", "derive", func(t *rapid.T) c07In {
 		SPIi:   rapid.Uint64().Draw(t, "spii"), SPIr: rapid.Uint64().Draw(t, "spir"),
 		Carved: rapid.IntRange(0, 2).Draw(t, "carved") == 2,
 	}
+	// arguments RELATED to each other: nonces that end in (or begin with) the two SPIs, as the seed of prf+ does; nonces that
+	// carry their payload header; nonce equal to the secret; equal SPIs
+	spis := make(model.Bytes, 16)
+	for i := 0; i < 8; i++ {
+		spis[i], spis[8+i] = byte(in.SPIi>>(56-8*uint(i))), byte(in.SPIr>>(56-8*uint(i)))
+	}
+	switch rapid.IntRange(0, 23).Draw(t, "relation") {
+	case 16, 17:
+		in.Nonce = append(append(model.Bytes(nil), in.Nonce...), spis...)
+	case 18:
+		in.Nonce = append(append(model.Bytes(nil), spis...), in.Nonce...)
+	case 19:
+		in.Nonce = append(append(model.Bytes(nil), in.Nonce...), spis[:8]...)
+	case 20:
+		n := len(in.Nonce) + 4
+		in.Nonce = append(model.Bytes{40, 0, byte(n >> 8), byte(n)}, in.Nonce...)
+	case 21:
+		in.Nonce = append(model.Bytes(nil), in.Secret...)
+	case 22:
+		in.SPIr = in.SPIi
+	case 23:
+		in.Nonce = spis
+	}
+	if len(in.Nonce) == 0 {
+		in.Nonce = model.Bytes{1}
+	}
+	return in
 }, func(in c07In) probe.Outcome {
 	suites := []bridge.SuiteSel{in.Suite}
 	if in.All {
@@ -362,6 +389,7 @@ var c07Degenerate = probe.Define("C07", "degenerate-peer-value", func(t *rapid.T
 
 func TestC07(t *testing.T) {
 	c := probe.NewCtx(t, "C07")
+	idleStart(c, "ike-sa")
 	if c.Shard == 0 {
 		for d := 0; d < 2; d++ {
 			for p := 0; p < 3; p++ {
@@ -373,4 +401,5 @@ func TestC07(t *testing.T) {
 	}
 	c07Derive.Run(c, t, c.N(2000, 20000))
 	c07TwoParty.Run(c, t, c.N(60, 600))
+	idleFinish(c, "C07", "ike-sa")
 }
